@@ -97,10 +97,10 @@ def run_parallel(args, jobs):
     rest = [a for a in args if not a.startswith("--jobs")]
     procs = []
     for i in range(jobs):
-        out = os.path.join("/tmp", f"verif-selftest-part{i}.json")
+        out = os.path.join("/tmp", f"verif-selftest-{os.getpid()}-part{i}.json")
         if os.path.exists(out):
             os.remove(out)
-        env = dict(os.environ, VERIF_SELFTEST_DIR=f"{SCRATCH}-{i}")
+        env = dict(os.environ, VERIF_SELFTEST_DIR=f"{SCRATCH}-{os.getpid()}-{i}")
         procs.append((out, subprocess.Popen([sys.executable, os.path.join(B.ENGINE, "check.py"), "selftest", f"--part={i}/{jobs}", f"--out={out}"] + rest, env=env)))
     results, ok_all = [], True
     for out, pr in procs:
